@@ -329,6 +329,13 @@ class UnexpectedError(Exception):
     """The 'unexpected exception' outcome of a scripted `set_power` call."""
 
 
+import contextvars
+
+# which request of a concurrent case the running coroutine works for (set by the harness' distribution-algorithm hook
+# inside the request's own task; the `set_power` tasks created there inherit it)
+CURRENT_REQUEST: contextvars.ContextVar = contextvars.ContextVar("c15_current_request", default=None)
+
+
 class FakeApi:
     """Scripted microgrid API client: data streams are real Broadcast channels, `set_power` follows a script."""
 
@@ -338,7 +345,9 @@ class FakeApi:
         self.channels = {cid: Broadcast[Any](name=f"data-{cid}", resend_latest=True) for cid in component_ids}
         self.senders = {cid: ch.new_sender() for cid, ch in self.channels.items()}
         self.calls: list[tuple[int, float]] = []
+        self.owners: list[Any] = []            # per call: the request it was made for (concurrent cases), else None
         self.script: dict[int, dict] = {}
+        self.owner_script: dict[Any, dict[int, dict]] = {}   # request -> its own script (overrides `script`)
 
     async def battery_data(self, cid: int, maxsize: int = 50) -> Any:
         return self.channels[cid].new_receiver(limit=maxsize)
@@ -349,8 +358,10 @@ class FakeApi:
     async def set_power(self, component_id: int, power_w: float) -> None:
         from frequenz.client.microgrid import ApiClientError, OperationOutOfRange
 
+        owner = CURRENT_REQUEST.get()
         self.calls.append((component_id, power_w))
-        call = self.script.get(component_id, {"kind": "ok", "delay": 0})
+        self.owners.append(owner)
+        call = self.owner_script.get(owner, self.script).get(component_id, {"kind": "ok", "delay": 0})
         if call["kind"] == "timeout" and call["delay"] <= 0:
             await asyncio.get_running_loop().create_future()  # never answers
         if call["delay"] > 0:
@@ -514,8 +525,9 @@ def run_manager_cases(kind: str, topo: dict, data: dict, cases: list[dict]) -> l
                 the requests by the `request` object they carry, the recorded calls by the component they address."""
                 subs = cc["reqs"]
                 loop = asyncio.get_running_loop()
-                api.calls = []
+                api.calls, api.owners = [], []
                 api.script = {int(k): v for sub in subs for k, v in sub["calls"].items()}
+                api.owner_script = {}
                 tracker.updates = []
                 seens: list[dict] = [{} for _ in subs]
                 if kind == "pv":
@@ -534,9 +546,14 @@ def run_manager_cases(kind: str, topo: dict, data: dict, cases: list[dict]) -> l
                     tracker.working = None if any(sub.get("working") is None for sub in subs) else \
                         sorted({b for sub in subs for b in sub["working"]})
 
+                    # every request has its own script (the component sets may overlap: same inverter, different request)
+                    api.owner_script = {n: {int(c): v for c, v in sub["calls"].items()} for n, sub in enumerate(subs)}
+
                     def distribute(power: float, pairs: Any) -> Any:
                         invs = {i.component_id for p in pairs for i in p.inverter}
-                        k = [n for n, own in enumerate(call_owner) if invs <= own and invs][0]
+                        exact = [n for n, own in enumerate(call_owner) if invs == own]
+                        k = exact[0] if exact else [n for n, own in enumerate(call_owner) if invs <= own and invs][0]
+                        CURRENT_REQUEST.set(k)  # runs inside the request's own task: its set_power tasks inherit it
                         stub = subs[k].get("stub")
                         if stub is not None:
                             r = algo.DistributionResult({int(i): _fl(w) for i, w in stub["dist"]}, _fl(stub["remaining"]))
@@ -573,15 +590,21 @@ def run_manager_cases(kind: str, topo: dict, data: dict, cases: list[dict]) -> l
                         stray += 1
                 await _drain(4)
                 elapsed = round((loop.time() - t0) * 1e6)
-                return {"concurrent": [observation(results[k], [(c, w) for c, w in api.calls if c in call_owner[k]],
-                                                   seens[k], elapsed) for k in range(len(subs))],
-                        "stray_results": stray}
+                if kind == "pv":
+                    mine = [[(c, w) for c, w in api.calls if c in call_owner[k]] for k in range(len(subs))]
+                    unattributed = 0
+                else:
+                    mine = [[cw for cw, o in zip(api.calls, api.owners) if o == k] for k in range(len(subs))]
+                    unattributed = sum(1 for o in api.owners if o is None)
+                api.owner_script = {}
+                return {"concurrent": [observation(results[k], mine[k], seens[k], elapsed) for k in range(len(subs))],
+                        "stray_results": stray, "unattributed_calls": unattributed}
 
             for case in cases:
                 if case.get("kind") == "concurrent":
                     out.append(await run_concurrent(case))
                     continue
-                api.calls = []
+                api.calls, api.owners = [], []
                 api.script = {int(k): v for k, v in case["calls"].items()}
                 tracker.working = case.get("working")
                 tracker.updates = []
